@@ -68,7 +68,8 @@ def cases(rng, tier):
     # places where the number of inactivated columns crosses a word boundary, are always included
     cases.big = []
     special = [835, 860, 870, 891, 913, 950, 1002, 1236, 1281, 1616, 1640, 1649, 1673, 1698, 2005]
-    ks = rng.shuffle(special)[: (5 if tier == "quick" else 15)] + [rng.range(830, 3000) for _ in range(5 if tier == "quick" else 40)]
+    wordp = [r[0] for r in C.repo_table2()[0] if (r[0] + r[2] + r[3] - r[4]) % 64 == 0 and 250 <= r[0] <= 7000]
+    ks = wordp + rng.shuffle(special)[: (4 if tier == "quick" else 15)] + [rng.range(830, 3000) for _ in range(4 if tier == "quick" else 40)]
     ks += [rng.choice([6589, 6655, 5008, 10002, 14862])] if tier == "quick" else [6589, 6655, 14862, 26291, 56403]
     for k in ks:
         t = rng.choice([1, 1, 2, 4])
